@@ -7,7 +7,13 @@
    (ScalImplProof.v) and is instantiated for execution by the correctly rounded [pow10_rn].
    Conversions double -> integer outside the target range are undefined in C; they are modelled with the
    x86-64/SSE2 behaviour of the code gcc emits (cvttsd2si "integer indefinite"), which the correspondence run checks
-   where reachable.  Definitions only. *)
+   where reachable.
+   Two booleans select the variant of the code that is mirrored (lib/c08.py probes which one the tree implements):
+     fx_neg = true : negative scales use the exact power 10^-scale (x * pow(10,-scale), x / pow(10,-scale)) in
+                     bufr_cvt_i64_to_dval, bufr_cvt_dval_to_i64 and bufr_descriptor_get_range
+                     (false: x / pow(10,scale) and x * pow(10,scale) with the inexact 10^scale);
+     fx_f32 = true : the single-precision functions keep pow(10,scale) in a double (false: in a float).
+   Definitions only. *)
 From Coq Require Import ZArith Bool QArith.
 From Flocq Require Import Core BinarySingleNaN.
 From V Require Import ScalSpec.
@@ -161,11 +167,14 @@ Definition desc_x (desc : Z) : Z := (desc / 1000) mod 100.
 
 Section WithPow.
 Variable pow10 : Z -> b64.       (* pow(10.0, (double)k) of libm *)
+Variable fx_neg : bool.
+Variable fx_f32 : bool.
 
-(* bufr_cvt_i64_to_dval; both branches of the C function compute (double)(int64)(ival+reference) / val_pow *)
+(* bufr_cvt_i64_to_dval: (double)(int64)(ival+reference) / 10^scale *)
 Definition cvt_i64_to_dval (en : enc) (ival : Z) : b64 :=
   let missing := missing_ivalue (e_nbits en) in
   if (ival <? 0) || (ival =? missing) then dbl_max
+  else if fx_neg && (e_scale en <? 0) then dmul (d_of_Z (sint64 (ival + e_ref en))) (pow10 (- e_scale en))
   else ddiv (d_of_Z (sint64 (ival + e_ref en))) (pow10 (e_scale en)).
 
 (* bufr_cvt_dval_to_i64 *)
@@ -177,8 +186,10 @@ Definition cvt_dval_to_i64 (desc : Z) (en : enc) (fval : b64) : Z :=
   let maxval := wrap64 (2 ^ nbits - 1) in
   let val_pow := pow10 scale in
   let ival_pow := cvt_si32 val_pow in
-  let fmin := ddiv (d_of_Z ref) val_pow in
-  let fmax := ddiv (d_of_Z (wrap64 (maxval - 1 + ref))) val_pow in
+  let exact_neg := fx_neg && (scale <? 0) in
+  let fmin := if exact_neg then dmul (d_of_Z ref) (pow10 (- scale)) else ddiv (d_of_Z ref) val_pow in
+  let fmax := if exact_neg then dmul (d_of_Z (sint64 (maxval - 1 + ref))) (pow10 (- scale))
+              else ddiv (d_of_Z (sint64 (maxval - 1 + ref))) val_pow in
   if bgt fval fmax then
     (if desc_x desc =? 31 then
        let ival := wrap64 (cvt_si32 fval) in if ival =? maxval then ival else missing
@@ -203,20 +214,22 @@ Definition cvt_dval_to_i64 (desc : Z) (en : enc) (fval : b64) : Z :=
         wrap64 (sval - ref) in
     if maxval <=? ival then missing else ival
   else
-    let sval := cvt_si64 (dround (dmul fval val_pow)) in
-    wrap64 (sval - ref).
+    let sval := cvt_si64 (dround (if fx_neg then ddiv fval (pow10 (- scale)) else dmul fval val_pow)) in
+    let ival := wrap64 (sval - ref) in
+    if maxval <=? ival then missing else ival.
 
 (* bufr_cvt_i32_to_fval *)
 Definition cvt_i32_to_fval (en : enc) (ival : Z) : b32 :=
   let ref := e_ref en in
   let missing := wrap32 (missing_ivalue (e_nbits en)) in
   if ival =? missing then flt_max else
-  let val_pow := d2f (pow10 (e_scale en)) in
-  if (ref <? 0) && (ival <? wrap32 (- ref)) then fdiv (f_of_Z (sint32 (wrap32 (ival + ref)))) val_pow
-  else fdiv (f_of_Z (wrap32 (ival + ref))) val_pow.
+  let num := if (ref <? 0) && (ival <? wrap32 (- ref)) then f_of_Z (sint32 (wrap32 (ival + ref)))
+             else f_of_Z (wrap32 (ival + ref)) in
+  if fx_f32 then d2f (ddiv (f2d num) (pow10 (e_scale en)))       (* double val_pow: float / double is a double division *)
+  else fdiv num (d2f (pow10 (e_scale en))).
 
-(* bufr_cvt_fval_to_i32 *)
-Definition cvt_fval_to_i32 (desc : Z) (en : enc) (fval : b32) : Z :=
+(* bufr_cvt_fval_to_i32 with `float val_pow` *)
+Definition cvt_fval_to_i32_flt (desc : Z) (en : enc) (fval : b32) : Z :=
   let nbits := e_nbits en in let ref := e_ref en in let scale := e_scale en in
   if 32 <? nbits then 0 else
   let missing := missing_ivalue nbits in
@@ -225,7 +238,7 @@ Definition cvt_fval_to_i32 (desc : Z) (en : enc) (fval : b32) : Z :=
   let val_pow := d2f (pow10 scale) in
   let ival_pow := cvt_si32 val_pow in
   let fmin := fdiv (f_of_Z ref) val_pow in
-  let fmax := fdiv (f_of_Z (wrap64 (maxval - 1 + ref))) val_pow in
+  let fmax := fdiv (f_of_Z (sint64 (maxval - 1 + ref))) val_pow in
   if bgt fval fmax then
     (if desc_x desc =? 31 then
        let ival := wrap32 (cvt_si32 fval) in if ival =? maxval then ival else wrap32 missing
@@ -251,15 +264,59 @@ Definition cvt_fval_to_i32 (desc : Z) (en : enc) (fval : b32) : Z :=
     if maxval <=? ival then wrap32 missing else ival
   else
     let sval := cvt_si32 (dround (f2d (fmul fval val_pow))) in
-    wrap32 (sval - ref).
+    let ival := wrap32 (sval - ref) in
+    if maxval <=? ival then wrap32 missing else ival.
+
+(* bufr_cvt_fval_to_i32 with `double val_pow`: every expression is evaluated in double *)
+Definition cvt_fval_to_i32_dbl (desc : Z) (en : enc) (fval : b32) : Z :=
+  let nbits := e_nbits en in let ref := e_ref en in let scale := e_scale en in
+  if 32 <? nbits then 0 else
+  let missing := missing_ivalue nbits in
+  if is_missing_float fval then wrap32 missing else
+  let maxval := wrap64 (2 ^ nbits - 1) in
+  let val_pow := pow10 scale in
+  let ival_pow := cvt_si32 val_pow in
+  let fmin := d2f (ddiv (d_of_Z ref) val_pow) in
+  let fmax := d2f (ddiv (d_of_Z (sint64 (maxval - 1 + ref))) val_pow) in
+  if bgt fval fmax then
+    (if desc_x desc =? 31 then
+       let ival := wrap32 (cvt_si32 fval) in if ival =? maxval then ival else wrap32 missing
+     else wrap32 missing)
+  else if blt fval fmin then wrap32 maxval
+  else if 0 <=? scale then
+    let val1 := dsub (f2d fval) (ddiv (d_of_Z ref) val_pow) in
+    let ival0 := cvt_u32 (dround (dmul val1 val_pow)) in
+    let delta := sint32 (wrap64 (maxval - ival0)) in
+    let ival :=
+      if delta <? ref then
+        let iv := cvt_u32 val1 in
+        let rem := cvt_u32 (dround (dmul (dsub val1 (d_of_Z iv)) val_pow)) in
+        cvt_u32 (dadd (dmul (d_of_Z iv) val_pow) (d_of_Z rem))
+      else if bgt fval fzero then
+        let iv := cvt_u32 fval in
+        let sval := wrap32 (iv * wrap32 ival_pow) in
+        let rem := cvt_u32 (dround (dmul (f2d (fsub fval (f_of_Z iv))) val_pow)) in
+        wrap32 (wrap32 (sval - ref) + rem)
+      else
+        let sval := cvt_si32 (dround (dmul (f2d fval) val_pow)) in
+        wrap32 (sval - ref) in
+    if maxval <=? ival then wrap32 missing else ival
+  else
+    let sval := cvt_si32 (dround (dmul (f2d fval) val_pow)) in
+    let ival := wrap32 (sval - ref) in
+    if maxval <=? ival then wrap32 missing else ival.
+
+Definition cvt_fval_to_i32 (desc : Z) (en : enc) (fval : b32) : Z :=
+  if fx_f32 then cvt_fval_to_i32_dbl desc en fval else cvt_fval_to_i32_flt desc en fval.
 
 (* bufr_descriptor_get_range for TYPE_NUMERIC/CODETABLE/FLAGTABLE: (min, max) *)
 Definition get_range (desc : Z) (en : enc) : b64 * b64 :=
-  let sf := pow10 (e_scale en) in
   let imax := sint64 (wrap64 (2 ^ e_nbits en - 1)) in
-  let mx := if desc_x desc =? 31 then ddiv (d_of_Z (imax + e_ref en)) sf
-            else ddiv (d_of_Z (imax - 1 + e_ref en)) sf in
-  (ddiv (d_of_Z (e_ref en)) sf, mx).
+  let imax := if desc_x desc =? 31 then imax else imax - 1 in
+  if fx_neg && (e_scale en <? 0) then
+    let sf := pow10 (- e_scale en) in (dmul (d_of_Z (e_ref en)) sf, dmul (d_of_Z (imax + e_ref en)) sf)
+  else
+    let sf := pow10 (e_scale en) in (ddiv (d_of_Z (e_ref en)) sf, ddiv (d_of_Z (imax + e_ref en)) sf).
 
 (* the value bufr_descriptor_set_dvalue stores in a FLT64 value: dval itself when missing or in range, else DBL_MAX *)
 Definition set_dvalue_stored (desc : Z) (en : enc) (dval : b64) : b64 :=
